@@ -19,28 +19,40 @@ theorem floorOk_asShipped : FloorOk .asShipped := by intro f h; cases h
 theorem floorOk_intended : FloorOk .intended := by
   intro f h; simp only [Variant.intended, Option.some.injEq] at h; omega
 
-/-- `req.length` on the wire while `max_req_len` is FFh or 1..16 -/
 def reqLenN (m off : Nat) : Nat := if m ≠ 255 ∧ off + m > 16 then 16 - off else m
 
 theorem wire_reqLen (m off : Nat) (hm : m < 256) (hoff : off ≤ 16) :
     wireByte (reqLen stdCfg (m : Int) off) = reqLenN m off := by
-  simp only [wireByte, reqLen, reqLenN, stdCfg]
-  split <;> split <;> omega
+  have he : (stdCfg.entire : Int) = 255 := rfl
+  have hr : (stdCfg.recLen : Int) = 16 := rfl
+  unfold wireByte reqLen reqLenN
+  by_cases h : m ≠ 255 ∧ off + m > 16
+  · rw [if_pos h, if_pos (by omega)]; omega
+  · rw [if_neg h, if_neg (by omega)]; omega
 
 theorem shrink_entire (v : Variant) : shrink stdCfg v ((255 : Nat) : Int) = some ((16 : Nat) : Int) := by
-  simp [shrink, stdCfg]
+  have he : (stdCfg.entire : Int) = 255 := rfl
+  unfold shrink
+  rw [if_pos (by omega)]; rfl
 
 theorem shrink_dec (v : Variant) (hv : FloorOk v) (m : Nat) (h2 : 2 ≤ m) (h : m ≠ 255) :
     shrink stdCfg v (m : Int) = some ((m - 1 : Nat) : Int) := by
-  have h' : ¬ (m : Int) = ((255 : Nat) : Int) := by omega
-  simp only [shrink, stdCfg, if_neg h']
-  have e : (m : Int) - ((1 : Nat) : Int) = ((m - 1 : Nat) : Int) := by omega
+  have he : (stdCfg.entire : Int) = 255 := rfl
+  have hs : (stdCfg.step : Int) = 1 := rfl
+  have e : (m : Int) - (stdCfg.step : Int) = ((m - 1 : Nat) : Int) := by omega
+  unfold shrink
+  rw [if_neg (by omega), e]
   cases hf : v.floor with
-  | none => simp only [e]
+  | none => rfl
   | some f =>
     have := hv f hf
-    simp only [e]
+    simp only []
     rw [if_neg (by omega)]
+theorem std_ccShrink : stdCfg.ccShrink = 202 := rfl
+theorem std_ccCancel : stdCfg.ccCancel = 197 := rfl
+theorem std_recLen : stdCfg.recLen = 16 := rfl
+theorem std_first : stdCfg.first = 0 := rfl
+theorem std_last : stdCfg.last = 65535 := rfl
 
 theorem u16_bytes (v : Nat) (h : v < 65536) : v % 256 + 256 * (v / 256 % 256) = v := by omega
 
@@ -188,7 +200,7 @@ id of its successor, for every partial-read limit ≥ 1 and with or without whol
 theorem entryLoop_exact (d : SelDev) (r rid : Nat) (e : List Nat) (next : Nat)
     (hev : d.evs = []) (hv : d.valid = true) (hc : d.cur = r) (hr1 : 1 ≤ r) (hr : r < 65536)
     (hrid : rid < 65536) (hf : find d.log rid = some (e, next)) (hlen : e.length = 16)
-    (hty : typeOk e) (hnext : next < 65536) (hl : 1 ≤ d.limit) (v : Variant) (hv : FloorOk v) :
+    (hty : typeOk e) (hnext : next < 65536) (hl : 1 ≤ d.limit) (v : Variant) (hfl : FloorOk v) :
     ∀ (fuel : Nat) (w : World SelDev) (m : Nat) (acc : List Nat),
       w.dev = d → acc = e.take acc.length → acc.length < 16 →
       ((m = 255 ∧ acc = []) ∨ (1 ≤ m ∧ m ≤ 16 ∧ (acc ≠ [] → m ≤ d.limit))) →
@@ -204,12 +216,14 @@ theorem entryLoop_exact (d : SelDev) (r rid : Nat) (e : List Nat) (next : Nat)
   | zero => intro w m acc _ _ _ _ hfu; omega
   | succ fuel ih =>
     intro w m acc hw hacc hal hm hfu
+    have hm256 : m < 256 := by rcases hm with ⟨h, _⟩ | ⟨_, h, _⟩ <;> omega
     unfold entryLoop
-    simp only [stdCfg, xchg, hw]
+    simp only [wire_reqLen m acc.length hm256 (by omega)]
+    simp only [std_ccShrink, std_recLen, xchg, hw]
     rcases hm with ⟨hm, ha⟩ | ⟨hm1, hm16, hml⟩
     · -- whole-record request
       subst hm; subst ha
-      have hl255 : reqLen ⟨255, 16, 16, 1, 202, 197, 0, 65535⟩ 255 0 = 255 := by simp [reqLen]
+      have hl255 : reqLenN 255 0 = 255 := by simp [reqLenN]
       simp only [List.length_nil, hl255]
       rw [respond_get_some d r rid 0 255 hr hrid (by omega) (by omega) hh e next hf']
       simp only [if_true, htick]
@@ -217,16 +231,15 @@ theorem entryLoop_exact (d : SelDev) (r rid : Nat) (e : List Nat) (next : Nat)
       · simp only [hwh, if_true, List.drop_zero, decodeGet_ok, hnx]
         simp [hlen, selEntry_ok e next hlen hty]
       · simp only [hwh, Bool.false_eq_true, if_false, ccCantReturn, decodeGet_cc 202 (by decide)]
-        try simp only [if_true]
-        have := ih ⟨d, w.trace ++ [⟨getReq r rid 0 255, [0xCA]⟩]⟩ 16 [] rfl (by simp) (by simp)
+        simp only [if_true, shrink_entire]
+        exact ih ⟨d, w.trace ++ [⟨getReq r rid 0 255, [0xCA]⟩]⟩ 16 [] rfl (by simp) (by simp)
           (Or.inr ⟨by omega, by omega, by simp⟩) (by simp at hfu ⊢; omega)
-        simpa [stdCfg] using this
     · -- partial reads
       have hm255 : m ≠ 255 := by omega
       rw [if_neg hm255] at hfu
-      generalize hq : reqLen _ m acc.length = len
+      generalize hq : reqLenN m acc.length = len
       have hq' : len = if acc.length + m > 16 then 16 - acc.length else m := by
-        rw [← hq]; simp [reqLen, hm255]
+        rw [← hq]; simp [reqLenN, hm255]
       have hq1 : 1 ≤ len := by rw [hq']; split <;> omega
       have hq2 : len ≤ m := by rw [hq']; split <;> omega
       have hq3 : acc.length + len ≤ 16 := by rw [hq']; split <;> omega
@@ -245,12 +258,11 @@ theorem entryLoop_exact (d : SelDev) (r rid : Nat) (e : List Nat) (next : Nat)
           omega
         subst hacc0
         simp only [hlim, if_true, ccCantReturn, decodeGet_cc 202 (by decide)]
-        try simp only [if_true, hm255, if_false]
         have hlm : len = m := hq4 (by simp; omega)
-        have := ih ⟨d, w.trace ++ [⟨getReq r rid 0 len, [0xCA]⟩]⟩ (m - 1) [] rfl (by simp) (by simp)
+        simp only [shrink_dec v hfl m (by omega) hm255]
+        exact ih ⟨d, w.trace ++ [⟨getReq r rid 0 len, [0xCA]⟩]⟩ (m - 1) [] rfl (by simp) (by simp)
           (Or.inr ⟨by omega, by omega, by simp⟩)
           (by rw [if_neg (by omega)]; simp only [List.length_nil] at hfu ⊢; omega)
-        simpa [stdCfg] using this
       · have hin : ¬ acc.length + len > e.length := by omega
         simp only [hlim, hin, if_false, decodeGet_ok, hnx]
         have hnew : acc ++ (e.drop acc.length).take len = e.take (acc.length + len) := by
@@ -366,11 +378,11 @@ theorem find_mem (log : List (List Nat)) (rid : Nat) (e : List Nat) (nx : Nat)
 theorem getSelEntry_exact (d : SelDev) (r rid : Nat) (e : List Nat) (next : Nat)
     (hev : d.evs = []) (hv : d.valid = true) (hc : d.cur = r) (hr1 : 1 ≤ r) (hr : r < 65536)
     (hrid : rid < 65536) (hf : find d.log rid = some (e, next)) (hok : entryOk e = true)
-    (hnext : next < 65536) (hl : 1 ≤ d.limit) (w : World SelDev) (hw : w.dev = d) :
-    (getSelEntry stdCfg respond w rid r).out = .ok (e, next) ∧
-    (getSelEntry stdCfg respond w rid r).w.dev = d := by
+    (hnext : next < 65536) (hl : 1 ≤ d.limit) (v : Variant) (hfl : FloorOk v) (w : World SelDev) (hw : w.dev = d) :
+    (getSelEntry stdCfg v respond w rid r).out = .ok (e, next) ∧
+    (getSelEntry stdCfg v respond w rid r).w.dev = d := by
   have ho := (entryOk_iff e).mp hok
-  exact entryLoop_exact d r rid e next hev hv hc hr1 hr hrid hf ho.1 ho.2.2.1 hnext hl entryFuel w 255 []
+  exact entryLoop_exact d r rid e next hev hv hc hr1 hr hrid hf ho.1 ho.2.2.1 hnext hl v hfl entryFuel w 255 []
     hw (by simp) (by simp) (Or.inl ⟨rfl, rfl⟩) (by simp [entryFuel])
 
 theorem nextOf_lt (post : List (List Nat)) (h : ∀ e ∈ post, entryOk e = true) : nextOf post < 65536 := by
@@ -382,20 +394,20 @@ theorem nextOf_lt (post : List (List Nat)) (h : ∀ e ∈ post, entryOk e = true
 
 theorem walk_exact (d : SelDev) (r : Nat) (hev : d.evs = []) (hv : d.valid = true) (hc : d.cur = r)
     (hr1 : 1 ≤ r) (hr : r < 65536) (hl : 1 ≤ d.limit) (hok : ∀ e ∈ d.log, entryOk e = true)
-    (hnd : (d.log.map entryId).Nodup) :
+    (hnd : (d.log.map entryId).Nodup) (v : Variant) (hfl : FloorOk v) :
     ∀ (post pre : List (List Nat)) (e : List Nat) (fuel : Nat) (w : World SelDev) (nxt : Nat)
       (acc : List (List Nat)),
       d.log = pre ++ e :: post → w.dev = d → find d.log nxt = some (e, nextOf post) → nxt < 65536 →
       post.length + 1 ≤ fuel →
-      (walk stdCfg respond fuel w r nxt acc).out = .ok (acc ++ e :: post) ∧
-      (walk stdCfg respond fuel w r nxt acc).w.dev = d := by
+      (walk stdCfg v respond fuel w r nxt acc).out = .ok (acc ++ e :: post) ∧
+      (walk stdCfg v respond fuel w r nxt acc).w.dev = d := by
   intro post
   induction post with
   | nil =>
     intro pre e fuel w nxt acc hlog hw hf hn hfu
     obtain ⟨f, rfl⟩ : ∃ f, fuel = f + 1 := ⟨fuel - 1, by omega⟩
     have he : entryOk e = true := hok e (by rw [hlog]; simp)
-    have hg := getSelEntry_exact d r nxt e (nextOf []) hev hv hc hr1 hr hn hf he (by simp [nextOf]) hl w hw
+    have hg := getSelEntry_exact d r nxt e (nextOf []) hev hv hc hr1 hr hn hf he (by simp [nextOf]) hl v hfl w hw
     unfold walk
     simp only [hg.1]
     simp [nextOf, show stdCfg.last = 65535 from rfl, hg.2]
@@ -409,7 +421,7 @@ theorem walk_exact (d : SelDev) (r : Nat) (hev : d.evs = []) (hv : d.valid = tru
       intro x hx; apply hok; rw [hlog]; simp only [List.mem_append, List.mem_cons]
       exact Or.inr (Or.inr (by simpa using hx))
     have hg := getSelEntry_exact d r nxt e (nextOf (e2 :: post)) hev hv hc hr1 hr hn hf he
-      (nextOf_lt _ hpost) hl w hw
+      (nextOf_lt _ hpost) hl v hfl w hw
     unfold walk
     simp only [hg.1]
     have hne : ¬ nextOf (e2 :: post) = stdCfg.last := by simpa [nextOf, stdCfg] using ho2.2.2.2.2
@@ -423,7 +435,7 @@ theorem walk_exact (d : SelDev) (r : Nat) (hev : d.evs = []) (hv : d.valid = tru
       exact this (entryId x) (List.mem_map_of_mem hx) (entryId e2) (List.mem_cons_self) heq
     have hf2 : find d.log (entryId e2) = some (e2, nextOf post) := by
       rw [hlog']; exact find_mid _ e2 post hdist ho2.2.2.2.1 ho2.2.2.2.2
-    have := ih (pre ++ [e]) e2 f (getSelEntry stdCfg respond w nxt r).w (entryId e2) (acc ++ [e])
+    have := ih (pre ++ [e]) e2 f (getSelEntry stdCfg v respond w nxt r).w (entryId e2) (acc ++ [e])
       hlog' hg.2 hf2 (entryId_lt e2 ho2.2.1) (by simp at hfu ⊢; omega)
     simpa [nextOf] using this
 
@@ -434,8 +446,8 @@ theorem decodeInfo_ok (n : Nat) (hn : n < 65536) :
 /-- `get_sel_entries()` against a device on which nothing else happens returns the log. -/
 theorem selEntries_exact (d : SelDev) (hev : d.evs = []) (hl : 1 ≤ d.limit)
     (hok : ∀ e ∈ d.log, entryOk e = true) (hnd : (d.log.map entryId).Nodup)
-    (hn : d.log.length < 65536) (w : World SelDev) (hw : w.dev = d) :
-    (selEntries stdCfg respond w).out = .ok d.log := by
+    (hn : d.log.length < 65536) (v : Variant) (hfl : FloorOk v) (w : World SelDev) (hw : w.dev = d) :
+    (selEntries stdCfg v respond w).out = .ok d.log := by
   have htick : tick d = d := tick_nil d hev
   unfold selEntries
   simp only [xchg, hw, respond_info, htick, decodeInfo_ok _ hn]
@@ -450,7 +462,7 @@ theorem selEntries_exact (d : SelDev) (hev : d.evs = []) (hl : 1 ≤ d.limit)
     simp only [decodeU16_ok _ hr]
     have he0 : entryOk e0 = true := hok e0 (by rw [hlog]; simp)
     have := walk_exact { d with cur := d.cur % 0xFFFF + 1, valid := true } (d.cur % 0xFFFF + 1)
-      hev rfl rfl hr1 hr hl hok hnd rest [] e0 walkFuel
+      hev rfl rfl hr1 hr hl hok hnd v hfl rest [] e0 walkFuel
       ⟨{ d with cur := d.cur % 0xFFFF + 1, valid := true },
         (w.trace ++ [⟨infoReq, [0, 0x51, d.log.length % 256, d.log.length / 256 % 256, 0xFF, 0xFF,
                 0, 0, 0, 0, 0, 0, 0, 0, 0x0A]⟩]) ++
@@ -497,6 +509,45 @@ theorem Inv.tick {r : Nat} {S : List (List Nat)} {d : SelDev} (h : Inv r S d) : 
   obtain ⟨h3, h4⟩ := h h1
   exact ⟨by rw [tick_cur]; exact h3, by rw [h2]; exact h4⟩
 
+/-- Number of log changes (each cancels the reservation) the script still holds. -/
+def nch (evs : List (Option Change)) : Nat := evs.countP Option.isSome
+
+theorem tick_nch_le (d : SelDev) : nch (tick d).evs ≤ nch d.evs := by
+  unfold tick; split
+  · exact Nat.le_refl _
+  · rename_i r hr; simp [nch, hr]
+  · rename_i c r hr; simp [nch, hr]
+
+/-- A tick that takes a standing reservation away has consumed a change. -/
+theorem tick_nch_lt (d : SelDev) (hv : d.valid = true) (hv' : (tick d).valid = false) :
+    nch (tick d).evs < nch d.evs := by
+  unfold tick at hv' ⊢; split
+  · rename_i h; simp [h, hv] at hv'
+  · rename_i r hr; simp [hr, hv] at hv'
+  · rename_i c r hr; simp [nch, hr]
+
+theorem nch_lt_ne_nil {a b : List (Option Change)} (h : nch a < nch b) : b ≠ [] := by
+  intro hb; subst hb; simp [nch] at h
+
+/-- `P` holds of the log now and after every further step of the script. -/
+def Always (P : List (List Nat) → Prop) : List (List Nat) → List (Option Change) → Prop
+  | log, [] => P log
+  | log, none :: r => P log ∧ Always P log r
+  | log, some c :: r => P log ∧ Always P (c.apply log) r
+
+theorem Always.now {P : List (List Nat) → Prop} {log : List (List Nat)} {evs : List (Option Change)}
+    (h : Always P log evs) : P log := by
+  cases evs with
+  | nil => exact h
+  | cons x r => cases x <;> exact h.1
+
+theorem Always.tick {P : List (List Nat) → Prop} {d : SelDev} (h : Always P d.log d.evs) :
+    Always P (tick d).log (tick d).evs := by
+  unfold Spec.Sel.tick; split
+  · exact h
+  · rename_i r hr; rw [hr] at h; exact h.2
+  · rename_i c r hr; rw [hr] at h; exact h.2
+
 theorem holds_iff (d : SelDev) (r : Nat) : holds d r = true ↔ d.valid = true ∧ d.cur = r := by
   simp only [holds, Bool.and_eq_true, beq_iff_eq]
   constructor <;> rintro ⟨a, b⟩ <;> exact ⟨a, b.symm⟩
@@ -509,7 +560,12 @@ structure Post (r rid : Nat) (S : List (List Nat)) (w : World SelDev) (res : Res
   deleted : res.w.dev.deleted = w.dev.deleted
   evs : res.w.dev.evs.length ≤ w.dev.evs.length
   ok : ∀ e nx, res.out = .ok (e, nx) → (∃ nx', find S rid = some (e, nx')) ∧ res.w.dev.valid = true
-  cancel : res.out = .ccError 197 → w.dev.valid = true → w.dev.cur = r → w.dev.evs ≠ []
+  /-- C5h under a reservation that stood when the loop was entered: a change of the script was consumed -/
+  cancel : res.out = .ccError 197 → w.dev.valid = true → w.dev.cur = r → nch res.w.dev.evs < nch w.dev.evs
+  nchLe : nch res.w.dev.evs ≤ nch w.dev.evs
+  /-- the snapshot holds the addressed record and it is of a known type: the read completes or is cancelled -/
+  good : ∀ e nx, find S rid = some (e, nx) → typeOk e → (∃ p, res.out = .ok p) ∨ res.out = .ccError 197
+  always : ∀ P, Always P w.dev.log w.dev.evs → Always P res.w.dev.log res.w.dev.evs
   term : res.out ≠ .pyError "nontermination"
 
 /-- The loop ends at this exchange. -/
@@ -517,24 +573,38 @@ theorem Post.leaf {r rid : Nat} {S : List (List Nat)} {w w' : World SelDev}
     {out : Outcome (List Nat × Nat)} (hdev : w'.dev = tick w.dev) (hwf : WF w.dev) (hinv : Inv r S w.dev)
     (hok : ∀ e nx, out = .ok (e, nx) → (∃ nx', find S rid = some (e, nx')) ∧ (tick w.dev).valid = true)
     (hcancel : out = .ccError 197 → holds (tick w.dev) r = false)
+    (hgood : ∀ e nx, find S rid = some (e, nx) → typeOk e → (∃ p, out = .ok p) ∨ out = .ccError 197)
     (hterm : out ≠ .pyError "nontermination") : Post r rid S w ⟨w', out⟩ := by
   refine ⟨by rw [hdev]; exact hwf.tick, by rw [hdev]; exact hinv.tick, by rw [hdev, tick_deleted],
-    by rw [hdev]; exact tick_evs_le _, ?_, ?_, hterm⟩
+    by rw [hdev]; exact tick_evs_le _, ?_, ?_, by rw [hdev]; exact tick_nch_le _, hgood,
+    fun P h => by rw [hdev]; exact h.tick, hterm⟩
   · intro e nx h; rw [hdev]; exact hok e nx h
-  · intro h hv hc hnil
-    have := hcancel h
-    rw [tick_nil _ hnil, holds_of _ _ hv hc] at this
-    cases this
+  · intro h hv hc
+    have hf := hcancel h
+    have hv' : (tick w.dev).valid = false := by
+      cases hx : (tick w.dev).valid with
+      | false => rfl
+      | true =>
+        rw [(holds_iff _ _).mpr ⟨hx, by rw [tick_cur]; exact hc⟩] at hf
+        cases hf
+    show nch w'.dev.evs < _
+    rw [hdev]; exact tick_nch_lt _ hv hv'
 
 /-- The loop goes on after this exchange. -/
 theorem Post.step {r rid : Nat} {S : List (List Nat)} {w w' : World SelDev}
     {res : Res SelDev (List Nat × Nat)} (hdev : w'.dev = tick w.dev) (h : Post r rid S w' res) :
     Post r rid S w res := by
+  have hle : nch w'.dev.evs ≤ nch w.dev.evs := by rw [hdev]; exact tick_nch_le _
   refine ⟨h.wf, h.inv, by rw [h.deleted, hdev, tick_deleted],
-    Nat.le_trans h.evs (by rw [hdev]; exact tick_evs_le _), h.ok, ?_, h.term⟩
-  intro hc hv hcur hnil
-  have ht := tick_nil _ hnil
-  exact h.cancel hc (by rw [hdev, ht]; exact hv) (by rw [hdev, ht]; exact hcur) (by rw [hdev, ht]; exact hnil)
+    Nat.le_trans h.evs (by rw [hdev]; exact tick_evs_le _), h.ok, ?_, Nat.le_trans h.nchLe hle, h.good,
+    fun P hP => h.always P (by rw [hdev]; exact hP.tick), h.term⟩
+  intro hc hv hcur
+  cases hx : w'.dev.valid with
+  | true => exact Nat.lt_of_lt_of_le (h.cancel hc hx (by rw [hdev, tick_cur]; exact hcur)) hle
+  | false =>
+    have : nch w'.dev.evs < nch w.dev.evs := by
+      rw [hdev] at hx ⊢; exact tick_nch_lt _ hv hx
+    exact Nat.lt_of_le_of_lt h.nchLe this
 
 theorem selEntry_data (data : List Nat) (nx : Nat) (e : List Nat) (nx' : Nat)
     (h : selEntry data nx = .ok (e, nx')) : e = data := by
@@ -562,13 +632,13 @@ theorem selEntry_ne_py (data : List Nat) (nx : Nat) (s : String) : selEntry data
 loop returns is the record the snapshot `S` (log at reservation time) holds under `rid`, and the
 reservation still stands when the last part arrives. -/
 theorem entryLoop_frame (r rid : Nat) (hr1 : 1 ≤ r) (hr : r < 65536) (hrid : rid < 65536)
-    (S : List (List Nat)) (hS : ∀ e ∈ S, e.length = 16) :
+    (S : List (List Nat)) (hS : ∀ e ∈ S, e.length = 16) (v : Variant) (hfl : FloorOk v) :
     ∀ (fuel : Nat) (w : World SelDev) (m : Nat) (acc : List Nat),
       WF w.dev → Inv r S w.dev → acc.length < 16 →
       (acc ≠ [] → ∃ e nx, find S rid = some (e, nx) ∧ acc = e.take acc.length) →
       ((m = 255 ∧ acc = []) ∨ (1 ≤ m ∧ m ≤ 16 ∧ (acc ≠ [] → m ≤ w.dev.limit))) →
       (if m = 255 then 34 else m) + (16 - acc.length) + 1 ≤ fuel →
-      Post r rid S w (entryLoop stdCfg respond fuel w r rid m acc) := by
+      Post r rid S w (entryLoop stdCfg v respond fuel w r rid (m : Int) acc) := by
   intro fuel
   induction fuel with
   | zero => intro w m acc _ _ _ _ _ hfu; omega
@@ -576,14 +646,14 @@ theorem entryLoop_frame (r rid : Nat) (hr1 : 1 ≤ r) (hr : r < 65536) (hrid : r
     intro w m acc hwf hinv hal hacc hm hfu
     have hwf' := hwf.tick
     have hinv' := hinv.tick
+    have hm256 : m < 256 := by rcases hm with ⟨h, _⟩ | ⟨_, h, _⟩ <;> omega
     unfold entryLoop
-    simp only [stdCfg, xchg]
-    generalize hq : reqLen _ m acc.length = len
+    simp only [wire_reqLen m acc.length hm256 (by omega)]
+    simp only [std_ccShrink, std_recLen, xchg]
+    generalize hq : reqLenN m acc.length = len
     have hlenlt : len < 256 := by
-      rw [← hq]; unfold reqLen
-      rcases hm with ⟨hm, _⟩ | ⟨_, hm16, _⟩
-      · simp [hm]
-      · split <;> simp only at * <;> omega
+      rw [← hq]; unfold reqLenN
+      split <;> omega
     by_cases hh : holds (tick w.dev) r = true
     · -- the reservation stands: the device looks into the snapshot
       obtain ⟨hv, hc⟩ := (holds_iff _ _).mp hh
@@ -592,7 +662,8 @@ theorem entryLoop_frame (r rid : Nat) (hr1 : 1 ≤ r) (hr : r < 65536) (hrid : r
       | none =>
         rw [respond_get_none _ r rid acc.length len hr hrid (by omega) hlenlt hh (by rw [hlogS]; exact hf)]
         simp only [ccNotPresent, decodeGet_cc 203 (by decide)]
-        exact Post.leaf rfl hwf hinv (by intro e nx h; cases h) (by intro h; cases h) (by intro h; cases h)
+        exact Post.leaf rfl hwf hinv (by intro e nx h; cases h) (by intro h; cases h)
+          (by intro e nx h; rw [hf] at h; cases h) (by intro h; cases h)
       | some p =>
         obtain ⟨e, next⟩ := p
         have he16 : e.length = 16 := hS e (find_mem S rid e next hf)
@@ -607,30 +678,32 @@ theorem entryLoop_frame (r rid : Nat) (hr1 : 1 ≤ r) (hr : r < 65536) (hrid : r
         rcases hm with ⟨hm, ha⟩ | ⟨hm1, hm16, hml⟩
         · -- whole-record request
           subst hm; subst ha
-          have hl255 : len = 255 := by rw [← hq]; simp [reqLen]
+          have hl255 : len = 255 := by rw [← hq]; simp [reqLenN]
           subst hl255
           simp only [if_true]
           by_cases hwh : (tick w.dev).whole = true
           · simp only [hwh, if_true, List.length_nil, List.drop_zero, decodeGet_ok, List.nil_append]
             simp only [show (0 : Nat) = 202 ↔ False by decide, if_false, ne_eq, not_true_eq_false, he16,
               ge_iff_le, Nat.le_refl, if_true]
-            refine Post.leaf rfl hwf hinv ?_ ?_ (selEntry_ne_py _ _ _)
+            refine Post.leaf rfl hwf hinv ?_ ?_ ?_ (selEntry_ne_py _ _ _)
             · intro e' nx h
               rw [selEntry_data _ _ _ _ h]
               exact ⟨⟨next, hf⟩, hv⟩
             · intro h; exact absurd h (selEntry_ne_cc _ _ _)
+            · intro e' nx' hfe hty
+              rw [hf] at hfe; cases hfe
+              exact Or.inl ⟨_, selEntry_ok e _ he16 hty⟩
           · simp only [hwh, Bool.false_eq_true, if_false, ccCantReturn, decodeGet_cc 202 (by decide)]
-            try simp only [if_true]
+            simp only [if_true, shrink_entire]
             apply Post.step (w' := ⟨tick w.dev, w.trace ++ [⟨getReq r rid ([] : List Nat).length 255, [202]⟩]⟩) rfl
-            have := ih ⟨tick w.dev, w.trace ++ [⟨getReq r rid ([] : List Nat).length 255, [202]⟩]⟩ 16 [] hwf' hinv'
+            exact ih ⟨tick w.dev, w.trace ++ [⟨getReq r rid ([] : List Nat).length 255, [202]⟩]⟩ 16 [] hwf' hinv'
               (by simp) (by intro h; exact absurd rfl h) (Or.inr ⟨by omega, by omega, by simp⟩)
               (by simp at hfu ⊢; omega)
-            simpa [stdCfg] using this
         · -- partial reads
           have hm255 : m ≠ 255 := by omega
           rw [if_neg hm255] at hfu
           have hq' : len = if acc.length + m > 16 then 16 - acc.length else m := by
-            rw [← hq]; simp [reqLen, hm255]
+            rw [← hq]; simp [reqLenN, hm255]
           have hq1 : 1 ≤ len := by rw [hq']; split <;> omega
           have hq2 : len ≤ m := by rw [hq']; split <;> omega
           have hq3 : acc.length + len ≤ 16 := by rw [hq']; split <;> omega
@@ -648,14 +721,13 @@ theorem entryLoop_frame (r rid : Nat) (hr1 : 1 ≤ r) (hr : r < 65536) (hrid : r
               omega
             subst hacc0
             simp only [hlim, if_true, ccCantReturn, decodeGet_cc 202 (by decide)]
-            try simp only [if_true, hm255, if_false]
             have hlm : len = m := hq4 (by simp; omega)
             have hl1 := hwf'.limit
+            simp only [shrink_dec v hfl m (by omega) hm255]
             apply Post.step (w' := ⟨tick w.dev, w.trace ++ [⟨getReq r rid ([] : List Nat).length len, [202]⟩]⟩) rfl
-            have := ih ⟨tick w.dev, w.trace ++ [⟨getReq r rid ([] : List Nat).length len, [202]⟩]⟩ (m - 1) [] hwf' hinv'
+            exact ih ⟨tick w.dev, w.trace ++ [⟨getReq r rid ([] : List Nat).length len, [202]⟩]⟩ (m - 1) [] hwf' hinv'
               (by simp) (by intro h; exact absurd rfl h) (Or.inr ⟨by omega, by omega, by simp⟩)
               (by rw [if_neg (by omega)]; simp only [List.length_nil] at hfu ⊢; omega)
-            simpa [stdCfg] using this
           · have hin : ¬ acc.length + len > e.length := by omega
             simp only [hlim, hin, if_false, decodeGet_ok]
             have hnew : acc ++ (e.drop acc.length).take len = e.take (acc.length + len) := by
@@ -668,11 +740,14 @@ theorem entryLoop_frame (r rid : Nat) (hr1 : 1 ≤ r) (hr : r < 65536) (hrid : r
             · have h16 : acc.length + len = 16 := by omega
               simp only [hnew, h16, ge_iff_le, Nat.le_refl, if_true]
               rw [List.take_of_length_le (show e.length ≤ 16 by omega)]
-              refine Post.leaf rfl hwf hinv ?_ ?_ (selEntry_ne_py _ _ _)
+              refine Post.leaf rfl hwf hinv ?_ ?_ ?_ (selEntry_ne_py _ _ _)
               · intro e' nx h
                 rw [selEntry_data _ _ _ _ h]
                 exact ⟨⟨next, hf⟩, hv⟩
               · intro h; exact absurd h (selEntry_ne_cc _ _ _)
+              · intro e' nx' hfe hty
+                rw [hf] at hfe; cases hfe
+                exact Or.inl ⟨_, selEntry_ok e _ he16 hty⟩
             · simp only [hdone, if_false]
               have hmlim : m ≤ (tick w.dev).limit := by
                 rw [tick_limit] at hlim ⊢
@@ -686,12 +761,13 @@ theorem entryLoop_frame (r rid : Nat) (hr1 : 1 ≤ r) (hr : r < 65536) (hrid : r
                 (acc ++ (e.drop acc.length).take len) hwf' hinv' (by omega)
                 (fun _ => ⟨e, next, hf, by rw [hnl, hnew]⟩)
                 (Or.inr ⟨hm1, hm16, fun _ => hmlim⟩) (by rw [if_neg hm255, hnl]; omega)
-              simpa [stdCfg] using this
+              exact this
     · -- the reservation is gone: C5h, the loop ends
       have hh' : holds (tick w.dev) r = false := by simpa using hh
       rw [respond_get_cancel _ r rid acc.length len hr1 hr hrid (by omega) hlenlt hh']
       simp only [ccCancelled, decodeGet_cc 197 (by decide)]
-      exact Post.leaf rfl hwf hinv (by intro e nx h; cases h) (fun _ => hh') (by intro h; cases h)
+      exact Post.leaf rfl hwf hinv (by intro e nx h; cases h) (fun _ => hh') (fun _ _ _ _ => Or.inr rfl)
+        (by intro h; cases h)
 
 /-! ### get-and-clear -/
 
@@ -713,15 +789,21 @@ def Atomic (res : Res SelDev (List Nat)) : Prop :=
   (∃ e r, res.out = .ok e ∧ res.w.dev.deleted = [(e, r)]) ∨
   ((∀ e, res.out ≠ .ok e) ∧ res.out ≠ .pyError "nontermination" ∧ res.w.dev.deleted = [])
 
-/-- For EVERY script of concurrent changes and every device limit: get-and-clear terminates
-(fuel beyond the script length is never used up); if it returns a record, that record is exactly
-the one record the device deleted; if it raises, nothing was deleted. -/
-theorem getAndClear_atomic (rid : Nat) (hrid : rid < 65536) :
-    ∀ (fuel : Nat) (w : World SelDev), WF w.dev → w.dev.deleted = [] → w.dev.evs.length < fuel →
-      Atomic (getAndClear stdCfg respond fuel w rid) := by
+/-- For EVERY script of concurrent changes and every device limit: get-and-clear terminates - the
+repaired loop for every retry budget (an exhausted budget is RetryError), the pinned `while True`
+when its fuel exceeds the script length; if it returns a record, that record is exactly the one
+record the device deleted; if it raises, nothing was deleted. -/
+theorem getAndClear_atomic (rid : Nat) (hrid : rid < 65536) (v : Variant) (hfl : FloorOk v) :
+    ∀ (fuel : Nat) (w : World SelDev), WF w.dev → w.dev.deleted = [] →
+      (v.budget.isSome = true ∨ w.dev.evs.length < fuel) →
+      Atomic (getAndClear stdCfg v respond fuel w rid) := by
   intro fuel
   induction fuel with
-  | zero => intro w _ _ h; omega
+  | zero =>
+    intro w _ hdel h
+    rcases h with h | h
+    · refine Or.inr ⟨?_, ?_, hdel⟩ <;> simp [getAndClear, gacExhausted, h]
+    · omega
   | succ fuel ih =>
     intro w hwf hdel hfu
     unfold getAndClear
@@ -742,11 +824,11 @@ theorem getAndClear_atomic (rid : Nat) (hrid : rid < 65536) :
     have hevs1 : w1.dev.evs = (tick w.dev).evs := by rw [hd1]
     have hv1 : w1.dev.valid = true := by rw [hd1]
     have hc1 : w1.dev.cur = r := by rw [hd1]
-    have hpost := entryLoop_frame r rid hr1 hr hrid w1.dev.log hS entryFuel w1 255 [] hwf1 hinv1 (by simp)
+    have hpost := entryLoop_frame r rid hr1 hr hrid w1.dev.log hS v hfl entryFuel w1 255 [] hwf1 hinv1 (by simp)
       (by intro h; exact absurd rfl h) (Or.inl ⟨rfl, rfl⟩) (by simp [entryFuel])
-    have hgdef : getSelEntry stdCfg respond w1 rid r = entryLoop stdCfg respond entryFuel w1 r rid 255 [] := rfl
+    have hgdef : getSelEntry stdCfg v respond w1 rid r = entryLoop stdCfg v respond entryFuel w1 r rid ((255 : Nat) : Int) [] := rfl
     rw [← hgdef] at hpost
-    generalize getSelEntry stdCfg respond w1 rid r = g at hpost
+    generalize getSelEntry stdCfg v respond w1 rid r = g at hpost
     have hgdel : g.w.dev.deleted = [] := by rw [hpost.deleted]; exact hdel1
     have hgevs : g.w.dev.evs.length ≤ (tick w.dev).evs.length := by rw [← hevs1]; exact hpost.evs
     have htevs := tick_evs_le w.dev
@@ -773,18 +855,22 @@ theorem getAndClear_atomic (rid : Nat) (hrid : rid < 65536) :
           cases hh'
         have := tick_evs_lt _ hne
         exact ih ⟨tick g.w.dev, _⟩ hpost.wf.tick (by simp only; rw [tick_deleted]; exact hgdel)
-          (by simp only; omega)
+          (by rcases hfu with h | h
+              · exact Or.inl h
+              · right; simp only; omega)
     | ccError c =>
       simp only
       by_cases hc : c = stdCfg.ccCancel
       · simp only [hc, if_true]
-        have hne : w1.dev.evs ≠ [] := hpost.cancel (by rw [hg, hc]; rfl) hv1 hc1
+        have hne : w1.dev.evs ≠ [] := nch_lt_ne_nil (hpost.cancel (by rw [hg, hc]; rfl) hv1 hc1)
         have hne' : w.dev.evs ≠ [] := by
           intro hnil
           rw [hevs1, tick_nil _ hnil] at hne
           exact hne hnil
         have := tick_evs_lt _ hne'
-        exact ih g.w hpost.wf hgdel (by omega)
+        exact ih g.w hpost.wf hgdel (by rcases hfu with h | h
+                                        · exact Or.inl h
+                                        · right; omega)
       · simp only [hc, if_false]
         exact Or.inr ⟨(by intro e h; cases h), (by intro h; cases h), hgdel⟩
     | decodingError =>
@@ -805,14 +891,98 @@ theorem getAndClear_atomic (rid : Nat) (hrid : rid < 65536) :
       simp only [castErr, Outcome.pyError.injEq] at h
       exact hpost.term (by rw [hg, h])
 
+theorem holds_false_valid (d : SelDev) (r : Nat) (hc : d.cur = r) (h : holds (tick d) r = false) :
+    (tick d).valid = false := by
+  cases hx : (tick d).valid with
+  | false => rfl
+  | true =>
+    rw [(holds_iff _ _).mpr ⟨hx, by rw [tick_cur]; exact hc⟩] at h
+    cases h
+
+/-- The addressed record is in the log, and every record of the log is of a known type. -/
+def Avail (rid : Nat) (log : List (List Nat)) : Prop :=
+  (∃ e nx, find log rid = some (e, nx)) ∧ ∀ e ∈ log, typeOk e
+
+/-- "Both steps are repeated": as long as the addressed record is still in the log after every
+change of the script, and the script holds fewer changes than the call has rounds, get-and-clear
+SUCCEEDS - it returns a record and the device has deleted exactly that record. -/
+theorem getAndClear_succeeds (rid : Nat) (hrid : rid < 65536) (v : Variant) (hfl : FloorOk v) :
+    ∀ (budget : Nat) (w : World SelDev), WF w.dev → w.dev.deleted = [] → nch w.dev.evs < budget →
+      Always (Avail rid) w.dev.log w.dev.evs →
+      ∃ e r, (getAndClear stdCfg v respond budget w rid).out = .ok e ∧
+        (getAndClear stdCfg v respond budget w rid).w.dev.deleted = [(e, r)] := by
+  intro budget
+  induction budget with
+  | zero => intro w _ _ h; omega
+  | succ budget ih =>
+    intro w hwf hdel hfu halw
+    unfold getAndClear
+    simp only [reserve, xchg, respond_reserve]
+    have hr1 : 1 ≤ (tick w.dev).cur % 0xFFFF + 1 := by omega
+    have hr : (tick w.dev).cur % 0xFFFF + 1 < 65536 := by omega
+    simp only [decodeU16_ok _ hr]
+    generalize hrdef : (tick w.dev).cur % 0xFFFF + 1 = r at hr1 hr ⊢
+    generalize hw1 : (⟨{ tick w.dev with cur := r, valid := true },
+      w.trace ++ [⟨reserveReq, [0, r % 256, r / 256 % 256]⟩]⟩ : World SelDev) = w1
+    have hd1 : w1.dev = { tick w.dev with cur := r, valid := true } := by rw [← hw1]
+    have hwt := hwf.tick
+    have hwf1 : WF w1.dev := by rw [hd1]; exact ⟨hwt.log, hwt.evs, hwt.limit⟩
+    have hS : ∀ e ∈ w1.dev.log, e.length = 16 := hwf1.log
+    have hinv1 : Inv r w1.dev.log w1.dev := by intro _; rw [hd1]; exact ⟨rfl, rfl⟩
+    have hdel1 : w1.dev.deleted = [] := by rw [hd1]; simp only; rw [tick_deleted]; exact hdel
+    have hevs1 : w1.dev.evs = (tick w.dev).evs := by rw [hd1]
+    have hlog1 : w1.dev.log = (tick w.dev).log := by rw [hd1]
+    have hv1 : w1.dev.valid = true := by rw [hd1]
+    have hc1 : w1.dev.cur = r := by rw [hd1]
+    have halw1 : Always (Avail rid) w1.dev.log w1.dev.evs := by rw [hevs1, hlog1]; exact halw.tick
+    have hn1 : nch w1.dev.evs ≤ nch w.dev.evs := by rw [hevs1]; exact tick_nch_le _
+    obtain ⟨⟨e0, nx0, hf0⟩, hty⟩ := halw1.now
+    have hty0 : typeOk e0 := hty e0 (find_mem _ _ _ _ hf0)
+    have hpost := entryLoop_frame r rid hr1 hr hrid w1.dev.log hS v hfl entryFuel w1 255 [] hwf1 hinv1 (by simp)
+      (by intro h; exact absurd rfl h) (Or.inl ⟨rfl, rfl⟩) (by simp [entryFuel])
+    have hgdef : getSelEntry stdCfg v respond w1 rid r = entryLoop stdCfg v respond entryFuel w1 r rid ((255 : Nat) : Int) [] := rfl
+    rw [← hgdef] at hpost
+    generalize getSelEntry stdCfg v respond w1 rid r = g at hpost
+    have hgdel : g.w.dev.deleted = [] := by rw [hpost.deleted]; exact hdel1
+    have hgood := hpost.good e0 nx0 hf0 hty0
+    have halwg := hpost.always _ halw1
+    cases hg : g.out with
+    | ok p =>
+      obtain ⟨e, nx⟩ := p
+      obtain ⟨⟨nx', hfind⟩, hgv⟩ := hpost.ok e nx hg
+      obtain ⟨hgc, hgl⟩ := hpost.inv hgv
+      simp only [deleteEntry, xchg]
+      by_cases hh : holds (tick g.w.dev) r = true
+      · obtain ⟨hv2, _⟩ := (holds_iff _ _).mp hh
+        have hlog2 : (tick g.w.dev).log = w1.dev.log := by rw [(tick_valid _ hv2).2]; exact hgl
+        rw [respond_delete_some _ r rid hr hrid hh e nx' (by rw [hlog2]; exact hfind)]
+        simp only [decodeU16_of_ok]
+        exact ⟨e, r, rfl, by rw [tick_deleted, hgdel]; rfl⟩
+      · have hh' : holds (tick g.w.dev) r = false := by simpa using hh
+        rw [respond_delete_cancel _ r rid hr hrid hh']
+        simp only [ccCancelled, decodeU16_cc 197 (by decide), show stdCfg.ccCancel = 197 from rfl, if_true]
+        have := tick_nch_lt _ hgv (holds_false_valid _ _ hgc hh')
+        have := hpost.nchLe
+        exact ih ⟨tick g.w.dev, _⟩ hpost.wf.tick (by simp only; rw [tick_deleted]; exact hgdel)
+          (by show nch (tick g.w.dev).evs < budget; omega) halwg.tick
+    | ccError c =>
+      have hc : c = 197 := by
+        rcases hgood with ⟨p, h⟩ | h <;> rw [hg] at h <;> cases h
+        rfl
+      subst hc
+      simp only [show stdCfg.ccCancel = 197 from rfl, if_true]
+      have := hpost.cancel hg hv1 hc1
+      exact ih g.w hpost.wf hgdel (by omega) halwg
+    | _ => exfalso; rcases hgood with ⟨p, h⟩ | h <;> rw [hg] at h <;> cases h
+
 /-! ### the shape of a successful get-and-clear on the wire (any peer, any constants) -/
 
 /-- `x` is a Get SEL Entry request for record `rid` carrying reservation `r`. -/
 def IsGet (r rid : Nat) (x : Xchg) : Prop := ∃ off len, x.req = getReq r rid off len
 
-theorem entryLoop_trace {σ} (cfg : Cfg) (send : Send σ) (r rid : Nat) :
-    ∀ (fuel : Nat) (w : World σ) (m : Nat) (acc : List Nat),
-      ∃ gets, (entryLoop cfg send fuel w r rid m acc).w.trace = w.trace ++ gets ∧
+theorem entryLoop_trace {σ} (cfg : Cfg) (v : Variant) (send : Send σ) (r rid : Nat) :
+    ∀ (fuel : Nat) (w : World σ) (m : Int) (acc : List Nat),
+      ∃ gets, (entryLoop cfg v send fuel w r rid m acc).w.trace = w.trace ++ gets ∧
         (∀ x ∈ gets, IsGet r rid x) ∧ (fuel ≠ 0 → gets ≠ []) := by
   intro fuel
   induction fuel with
@@ -823,7 +993,7 @@ theorem entryLoop_trace {σ} (cfg : Cfg) (send : Send σ) (r rid : Nat) :
     intro w m acc
     unfold entryLoop
     dsimp only
-    generalize hlen : reqLen cfg m acc.length = len
+    generalize hlen : wireByte (reqLen cfg m acc.length) = len
     have one : ∀ (rsp : List Nat), ∃ gets, (w.trace ++ [⟨getReq r rid acc.length len, rsp⟩]) = w.trace ++ gets ∧
         (∀ x ∈ gets, IsGet r rid x) ∧ (fuel + 1 ≠ 0 → gets ≠ []) := by
       intro rsp
@@ -831,8 +1001,8 @@ theorem entryLoop_trace {σ} (cfg : Cfg) (send : Send σ) (r rid : Nat) :
       intro x hx
       simp only [List.mem_singleton] at hx
       rw [hx]; exact ⟨_, _, rfl⟩
-    have more : ∀ (m' : Nat) (acc' : List Nat), ∃ gets,
-        (entryLoop cfg send fuel (xchg send w (getReq r rid acc.length len)).1 r rid m' acc').w.trace
+    have more : ∀ (m' : Int) (acc' : List Nat), ∃ gets,
+        (entryLoop cfg v send fuel (xchg send w (getReq r rid acc.length len)).1 r rid m' acc').w.trace
           = w.trace ++ gets ∧ (∀ x ∈ gets, IsGet r rid x) ∧ (fuel + 1 ≠ 0 → gets ≠ []) := by
       intro m' acc'
       obtain ⟨gs, h1, h2, _⟩ := ih (xchg send w (getReq r rid acc.length len)).1 m' acc'
@@ -848,7 +1018,9 @@ theorem entryLoop_trace {σ} (cfg : Cfg) (send : Send σ) (r rid : Nat) :
       obtain ⟨cc, next, data⟩ := p
       simp only
       split
-      · exact more _ _
+      · split
+        · exact more _ _
+        · exact one _
       · split
         · exact one _
         · split
@@ -860,16 +1032,19 @@ theorem entryLoop_trace {σ} (cfg : Cfg) (send : Send σ) (r rid : Nat) :
 ends with  Reserve SEL → r,  one or more Get SEL Entry all carrying r,  Delete SEL Entry carrying r
 (acknowledged) — the deletion is issued under the reservation of the read it follows, and no
 other request comes in between. -/
-theorem getAndClear_trace {σ} (cfg : Cfg) (send : Send σ) (rid : Nat) :
-    ∀ (fuel : Nat) (w : World σ) (e : List Nat), (getAndClear cfg send fuel w rid).out = .ok e →
+theorem getAndClear_trace {σ} (cfg : Cfg) (v : Variant) (send : Send σ) (rid : Nat) :
+    ∀ (fuel : Nat) (w : World σ) (e : List Nat), (getAndClear cfg v send fuel w rid).out = .ok e →
       ∃ pre rspR r gets rspD,
-        (getAndClear cfg send fuel w rid).w.trace =
+        (getAndClear cfg v send fuel w rid).w.trace =
           pre ++ ⟨reserveReq, rspR⟩ :: (gets ++ [⟨deleteReq r rid, rspD⟩]) ∧
         decodeU16Rsp rspR = .ok r ∧ (∀ x ∈ gets, IsGet r rid x) ∧ gets ≠ [] ∧
         ∃ v, decodeU16Rsp rspD = .ok v := by
   intro fuel
   induction fuel with
-  | zero => intro w e h; simp [getAndClear] at h
+  | zero =>
+    intro w e h
+    simp only [getAndClear, gacExhausted] at h
+    split at h <;> cases h
   | succ fuel ih =>
     intro w e
     unfold getAndClear
@@ -878,8 +1053,8 @@ theorem getAndClear_trace {σ} (cfg : Cfg) (send : Send σ) (rid : Nat) :
     cases hres : decodeU16Rsp x1.2 with
     | ok res =>
       simp only
-      obtain ⟨gets, hg1, hg2, hg3⟩ := entryLoop_trace cfg send res rid entryFuel x1.1 cfg.entire []
-      generalize entryLoop cfg send entryFuel x1.1 res rid cfg.entire [] = g at hg1 ⊢
+      obtain ⟨gets, hg1, hg2, hg3⟩ := entryLoop_trace cfg v send res rid entryFuel x1.1 (cfg.entire : Int) []
+      generalize entryLoop cfg v send entryFuel x1.1 res rid (cfg.entire : Int) [] = g at hg1 ⊢
       cases hgo : g.out with
       | ok p =>
         obtain ⟨e', nx⟩ := p
